@@ -7,6 +7,7 @@ import Driver.C02
 import Driver.C14
 import Driver.C10
 import Driver.C12
+import Driver.C20
 open Lean Driver
 
 def dispatch (j : Json) : R Json := do
@@ -22,6 +23,7 @@ def dispatch (j : Json) : R Json := do
   | "C14" => Driver.C14.handle op j
   | "C10" => Driver.C10.handle op j
   | "C12" => Driver.C12.handle op j
+  | "C20" => Driver.C20.handle op j
   | _ => throw s!"unknown property {p}"
 
 partial def loop (h : IO.FS.Stream) (out : IO.FS.Stream) : IO Unit := do
